@@ -262,6 +262,12 @@ func checkDecode(c *decodeCase, input []byte) result {
 		}
 		if min > bound {
 			site := topAllocSite(func() { decodeOnce(c, input) })
+			if c.Proto == "dubbo" && strings.HasPrefix(site, "github.com/apache/dubbo-go-hessian2") {
+				// one root cause whatever the hessian type: getServiceAwareMeta runs the generic object decoder
+				// where only strings are expected
+				site += " (generic hessian2 decode in getServiceAwareMeta)"
+				site = "hessian2-generic-decode-in-getServiceAwareMeta"
+			}
 			res.fail = &failure{c.Proto + "/allocates-beyond-arrived-bytes:" + site, fmt.Sprintf("%d bytes of input (outcome %s, %d frames, %s): the Decode calls allocated %d bytes (three measurements, minimum), bound 32*len+256KiB = %d; largest allocation site %s",
 				len(input), res.first, res.frames, res.errText, min, bound, site)}
 			return res
@@ -414,6 +420,9 @@ func mutate(rt *rapid.T, f *codec.Frame, depth int) (out []byte, class, desc str
 	if f.Proto == "tars" {
 		kinds = append(kinds, "tars-count", "tars-count")
 	}
+	if f.Proto == "dubbo" {
+		kinds = append(kinds, "dubbo-hessian-object", "dubbo-hessian-object")
+	}
 	if depth == 0 {
 		kinds = append(kinds, "two-mutations")
 	}
@@ -485,6 +494,42 @@ func mutate(rt *rapid.T, f *codec.Frame, depth int) (out []byte, class, desc str
 		j := rapid.IntRange(0, len(g)).Draw(rt, "spliceFrom")
 		b = append(b[:i:i], g[j:]...)
 		desc = fmt.Sprintf("first %d bytes + another frame from offset %d", i, j)
+	case "dubbo-hessian-object":
+		// a request whose k-th leading hessian field (framework version, path, version, method) is not a
+		// string but an object / list / class definition announcing a generated element count
+		k := rapid.IntRange(0, 3).Draw(rt, "field")
+		var pl []byte
+		for _, sv := range []string{"2.0.2", "com.a.Svc", "1.0.0", "m"}[:k] {
+			pl = append(append(pl, byte(len(sv))), sv...)
+		}
+		cnt := rapid.SampledFrom([]uint32{0, 1, 3, 255, 65535, 1 << 20, 1 << 24, 0x7fffffff, 0xffffffff}).Draw(rt, "count")
+		if cnt == 0x7fffffff && rapid.IntRange(0, 3).Draw(rt, "keepHuge") != 0 {
+			cnt = 1 << 22 // 2^31-1 elements is a 32 GiB request to the allocator; try it rarely
+		}
+		i32 := []byte{'I', byte(cnt >> 24), byte(cnt >> 16), byte(cnt >> 8), byte(cnt)}
+		shape := rapid.SampledFrom([]string{"class-def", "typed-list", "untyped-list", "binary-chunk", "string-chunk", "ref", "object", "map"}).Draw(rt, "shape")
+		switch shape {
+		case "class-def":
+			pl = append(append(pl, 'C', 1, 'a'), i32...)
+		case "typed-list":
+			pl = append(append(pl, 'V', 1, 'a'), i32...)
+		case "untyped-list":
+			pl = append(append(pl, 0x58), i32...)
+		case "binary-chunk":
+			pl = append(pl, 'B', byte(cnt>>8), byte(cnt), 1, 2, 3)
+		case "string-chunk":
+			pl = append(pl, 'S', byte(cnt>>8), byte(cnt), 'x', 'y')
+		case "ref":
+			pl = append(append(pl, 0x51), i32...)
+		case "object":
+			pl = append(append(pl, 'O'), i32...)
+		case "map":
+			pl = append(pl, 'M', 1, 'a', 1, 'k')
+		}
+		pl = append(pl, rapid.SliceOfN(rapid.Byte(), 0, 12).Draw(rt, "rest")...)
+		b = codec.BuildDubbo(0xc2, 0, f.ID, pl)
+		class += ":" + shape
+		desc = fmt.Sprintf("hessian field %d is a %s announcing %d", k, shape, cnt)
 	case "tars-count":
 		// the announced entry count of a map / byte length of sBuffer, re-encoded as a 4-byte integer
 		_, counts := tarsWalk(b)
